@@ -24,6 +24,11 @@ class Holder:
     one: Optional[object] = field(default=None, metadata={"type": "Wildcard"})
 
 
+@dataclass
+class R:  # target of the directed XInclude faults
+    inc: List[int] = field(default_factory=list, metadata={"type": "Element"})
+
+
 DOCS = [
     {"any": [{"qname": "c", "type": "Leaf", "value": {"x": 1}}]},
     {"any": [{"qname": "c", "text": "t", "tail": None, "children": [{"qname": "d", "text": "", "children": [], "attributes": {}}], "attributes": {"k": "v"}}]},
